@@ -265,6 +265,11 @@ pub fn run(ctx: &mut Ctx) {
         let pads: Vec<String> = (0..*nev).map(|k| (30_000 + (k * 3571 + j * 1000) % 25_000).to_string()).collect();
         case_writer(ctx, &mw.to_string(), &mk.to_string(), "0", &ex.join(","), &pads.join(","));
     }
+    // events longer than a whole file (they get a file of their own), followed by ordinary ones
+    for (j, pads) in ["100,70000,100,200,70000,300,5,5,5", "10,66000,10,10,10,10,10", "10,10,140000,20,20,20,20|30,30"].iter().enumerate() {
+        idx += 1;
+        if ctx.mine(idx) { case_writer(ctx, "65536", if j == 1 { "131072" } else { "655360" }, "0", "", pads); }
+    }
     // writer level
     let nw = if ctx.thorough() { 150 } else { 24 };
     for k in 0..nw {
